@@ -20,7 +20,7 @@ import os
 import token
 import tokenize
 
-from cutplace import _compat
+from cutplace import _compat, errors
 
 #: Mapping for value of :option:`--log` to logging level.
 LOG_LEVEL_NAME_TO_LEVEL_MAP = {
@@ -111,11 +111,14 @@ def tokenize_without_space(text):
     ``text`` split into token with any white space tokens removed.
     """
     assert text is not None
-    for toky in generated_tokens(text):
-        toky_type = toky[0]
-        toky_text = toky[1]
-        if ((toky_type != token.INDENT) and toky_text.strip()) or (toky_type == token.ENDMARKER):
-            yield toky
+    try:
+        for toky in generated_tokens(text):
+            toky_type = toky[0]
+            toky_text = toky[1]
+            if ((toky_type != token.INDENT) and toky_text.strip()) or (toky_type == token.ENDMARKER):
+                yield toky
+    except (tokenize.TokenError, SyntaxError) as error:
+        raise errors.InterfaceError("text must be a sequence of valid tokens: %s (error: %s)" % (_compat.text_repr(text), error))
 
 
 def token_text(toky):
